@@ -779,6 +779,49 @@ class Run:
             new = self.fresh_name() + "2"
             return self.probe_call(what, "append_column(<%d values>, %r, %s) on %d rows" % (ln, new, PYT[t].__name__, m.n),
                                    lambda: df.append_column(column, new, PYT[t]))
+        if what in ("unstorable_append_column", "unstorable_append_rows", "unstorable_write_rows", "unstorable_write_cell"):
+            # values the storage layer cannot take (a NumPy fixed-width text type as column type, text with an embedded
+            # NUL or a lone surrogate): accepted or refused - but a refusal leaves the table as it was
+            bad_text = ["a\x00b", "c\ud800d"][k % 2]
+            bad_cls = ["embedded-nul", "lone-surrogate"][k % 2]
+            tcols = [i for i, tt in enumerate(m.types) if tt == "str"]
+            if what == "unstorable_append_column":
+                new = self.fresh_name() + "3"
+                variant = ["numpy-U-dtype", "object-dtype", "text:" + bad_cls][op["d"] % 3]
+                if variant == "numpy-U-dtype":
+                    col = np.array(["t%d" % i for i in range(m.n)] or ["t"])[:m.n]
+                    call = lambda: df.append_column(col, new, datatype=np.dtype("<U4"))  # noqa: E731
+                elif variant == "object-dtype":
+                    col = [object() for _ in range(m.n)]
+                    call = lambda: df.append_column(col, new, datatype=object)  # noqa: E731
+                else:
+                    if m.n == 0:
+                        return "skip"
+                    col = ["v%d" % i for i in range(m.n)]
+                    col[op["row"] % m.n] = bad_text
+                    call = lambda: df.append_column(col, new, datatype=str)  # noqa: E731
+                self.stat("probe:%s:%s" % (what, variant))
+                return self.probe_call(what + "/" + variant, "append_column(<%d values>, %r) [%s]" % (m.n, new, variant),
+                                       call, must_raise=False)
+            if not tcols:
+                return "skip"
+            j = tcols[op["col"] % len(tcols)]
+            if what == "unstorable_append_rows":
+                rows = [list(m.row([k + i])) for i in range(d)]
+                rows[-1][j] = bad_text
+                rows = [tuple(r) for r in rows]
+                return self.probe_call(what + "/" + bad_cls, "append_rows(<%d rows, the last with %s text in column %d>)" % (
+                    len(rows), bad_cls, j), lambda: df.append_rows(rows), must_raise=False)
+            if m.n == 0:
+                return "skip"
+            r = op["row"] % m.n
+            if what == "unstorable_write_rows":
+                row = list(m.row([k]))
+                row[j] = bad_text
+                return self.probe_call(what + "/" + bad_cls, "write_rows(<1 row with %s text in column %d>, [%d])" % (bad_cls, j, r),
+                                       lambda: df.write_rows([tuple(row)], [r]), must_raise=False)
+            return self.probe_call(what + "/" + bad_cls, "write_cell(<%s text>, position=(%d, %d))" % (bad_cls, r, j),
+                                   lambda: df.write_cell(bad_text, position=(r, j)), must_raise=False)
         if what == "unknown_write_column":
             nn = self.fresh_name()
             return self.probe_call(what if m.n else what + "-no-rows", "write_column(<%d values>, name=%r)" % (m.n, nn),
@@ -931,7 +974,9 @@ def run_case(case, ctx):
 
 PROBES = ["len_write_column", "len_append_column", "unknown_write_column", "unknown_write_cell", "oob_write_rows",
           "oob_write_cell_pos", "oob_write_cell_name", "dup_append_column", "dup_create",
-          "badrow_write_rows", "badrow_append_rows", "text_write_rows", "count_write_rows", "unordered_write_rows"]
+          "badrow_write_rows", "badrow_append_rows", "text_write_rows", "count_write_rows", "unordered_write_rows",
+          "unstorable_append_column", "unstorable_append_column", "unstorable_append_rows", "unstorable_write_rows",
+          "unstorable_write_cell"]
 
 
 def _isint(x):
